@@ -2,6 +2,7 @@ import SockModel.Model.SendLoopLemmas
 import SockModel.Model.GenWorld
 import SockModel.Generated.Loops
 import SockModel.Basic.TieTactic
+import SockModel.Spec.C16
 /-!
 # C16  Signals interrupting a wait are invisible
 
@@ -145,6 +146,29 @@ example : (wait 50 { polls := [.eintr 10, .eintr 10, .ready 5] }).2.now = 25 * n
 example : pollArgs (wait 50 { polls := [.eintr 10, .eintr 10, .timedOut] }).2 = [50, 40, 30] := by decide
 
 end SockModel.SendLoop
+
+/-! ## The run-time oracle is a theorem of the model (`Spec/C16.lean`) -/
+namespace SockModel.Spec.C16
+/-- the predicate `./check C16` evaluates on the implementation's blocking socket operations (`Spec/C16.lean`:
+`specStep` = `Spec.C07.specStepM c16` - an operation that met a signal keeps its timeout semantics
+(`specTimeouts`: every re-issued poll within the remaining budget, 'nothing' only at `start + T`, unlimited
+stays unlimited, zero never blocks) and "a signal made X fail" (an exception although no system call failed))
+accepts every trace of the model, for every history of any length and every number and timing of signal
+deliveries (`PollAns.eintr d` anywhere in the scripts).  `histOk` is the domain of `Spec/C07.lean`. -/
+theorem spec_holds_on_model (history : List C01.Op) (h : C07.histOk history = true) :
+    ∃ s, specRun () (C01.modelTrace {} history) = .ok s :=
+  model_satisfies_spec history h
+
+/-- the clauses `./check C16` evaluates on a `Driver::Step` under injected signals (`Spec/C16.lean`: `specStepE` -
+the step does not fail, its polls keep the timeout semantics, and with `T > 0` and no event it returns no
+earlier than `T` after it was entered) accept the observations of the model (`wait T` on the scripted poll
+answers) for every timeout `T < 2^31` ms and every script without a genuine poll failure: any number and
+timing of signal deliveries, readiness after any delay or never. -/
+theorem spec_holds_on_model_step (T : Int) (polls : List SendLoop.PollAns) (hT : T ≤ Deadline.intMax)
+    (hk : T < 0 → ∀ a ∈ polls, a ≠ SendLoop.PollAns.timedOut) (hnf : ∀ a ∈ polls, ∀ e, a ≠ SendLoop.PollAns.fail e)
+    (o : StepObs) (h : modelStepObs T polls = some o) : specStepE o = none :=
+  step_model_satisfies_spec T polls hT hk hnf o h
+end SockModel.Spec.C16
 
 /-! ## Source-derived tie, stage 2 (DESIGN.md §0.7): the EINTR retry loops
 
